@@ -209,9 +209,47 @@ class SymDatetime(datetime.datetime, _Instant):
         shifted = self._shift(tz)      # range check (OverflowError) and the opaque same-instant value
         src, dst = _fields_offset(self), tz_offset_seconds(tz) if tz is not None else None
         if isinstance(src, int) and isinstance(dst, int) and isinstance(tz, datetime.tzinfo):
-            # fixed offsets on both sides: the calendar fields of the same instant in the target zone
-            return SymDatetime(shift_fields(self.fields, dst - src), tz)
+            # fixed offsets on both sides: the same instant; comparisons keep using the original
+            # fields and offset, the calendar fields in the target zone are computed on demand
+            return ShiftedDatetime(self.fields, src, tz)
         return shifted
+
+    __le__ = _Instant.__le__
+    __lt__ = _Instant.__lt__
+    __ge__ = _Instant.__ge__
+    __gt__ = _Instant.__gt__
+    __hash__ = None
+
+
+class ShiftedDatetime(SymDatetime):
+    """result of astimezone between fixed offsets: compares by the original fields and offset
+    (no extra arithmetic in the solver); timetuple() -- what formatting reads -- uses the
+    calendar fields of the same instant in the target zone"""
+
+    def __new__(cls, fields, fields_offset, tz):
+        self = super().__new__(cls, fields, tz)
+        self.fields_offset = fields_offset
+        self._local = None
+        return self
+
+    def local_fields(self):
+        if self._local is None:
+            self._local = shift_fields(self.fields, tz_offset_seconds(self.tzinfo) - self.fields_offset)
+        return self._local
+
+    def timetuple(self):
+        return SymDatetime(self.local_fields(), self.tzinfo).timetuple()
+
+    def replace(self, **kw):
+        extra = set(kw) - {"microsecond"}
+        if extra:
+            from symex.core import Unsupported
+
+            raise Unsupported(f"datetime.replace({sorted(extra)}) after astimezone on the datetime model")
+        return self
+
+    def astimezone(self, tz=None):
+        return SymDatetime(self.local_fields(), self.tzinfo).astimezone(tz)
 
     __le__ = _Instant.__le__
     __lt__ = _Instant.__lt__
